@@ -149,4 +149,184 @@ func init() {
 		assumptions: []string{"keys unique per batch (documented API requirement)", "Snapshot taken with no ExecuteBatch in flight (director is single-threaded)"},
 		minUnits:    20,
 	})
+	// ------------------------------------------------------------ C02
+	registerSteered(steeredProfile{
+		prop: "C02", quick: 400, thorough: 8000,
+		rule: "steered programs that open collection snapshots, store snapshots, child snapshots and partially advanced iterators (up to 6 at once) at arbitrary points, then keep running batches, merger cycles, persister rounds, partial and full compactions, Collection.Close and Store.Close; after EVERY later step every open handle is re-read in full (iteration + Get of each universe key, memory faults trapped) against the model copy taken when it was opened; iterators are continued to their end and re-seeked at program end. distinct_nontrivial = distinct (handle kind | events outlived: compaction/unlink/collection close/store close | configuration class) triples for which a re-read happened.",
+		oracles: eng.Oracles{Frozen: true, Content: true},
+		gen: func(r *eng.Rng, idx int, th bool) *eng.Program {
+			cfg := eng.GenConfig(r, pickBacking(r, "none", "store", "store", "store", "store", "custom"), false)
+			gp := eng.GenParams{MinBatches: 4, MaxBatches: 14, NKeys: 6 + r.Intn(8), Park: true, Handles: true, StoreHandles: true,
+				Children: r.Chance(1, 3), TailClose: r.Chance(2, 3), Reopen: r.Chance(1, 4), Idle: true}
+			return eng.GenProgram(r, "C02", cfg, gp)
+		},
+		units: func(p *eng.Program, res *eng.Result, add func(string)) {
+			for k := range res.Counters {
+				if len(k) > 15 && k[:15] == "handles.reread." {
+					add(k[15:] + "|" + p.Cfg.Class())
+				}
+			}
+		},
+		minUnits: 20,
+	})
+
+	// ------------------------------------------------------------ C04
+	registerSteered(steeredProfile{
+		prop: "C04", quick: 400, thorough: 8000,
+		rule: "steered store-backed programs with child collections, empty values and deletions; close+reopen at chosen points: caught-up (3 directed merger+persister iterations after the last batch, then Close), early (Close right where the program is, including with merger/persister parked), mid (Close called while the persister is parked inside Store.persist/compact at a store.* hook; gates open only after Close has signalled stop); the reopened tree's canonical hash is looked up in the table of prefix states: caught-up => exactly all batches, otherwise some prefix >= what the store had exposed. distinct_nontrivial = distinct (reopen kind, batches lost) pairs plus (config class|shape|park) triples.",
+		oracles: eng.Oracles{Content: true, Reopen: true, Store: true},
+		gen: func(r *eng.Rng, idx int, th bool) *eng.Program {
+			cfg := eng.GenConfig(r, "store", false)
+			gp := eng.GenParams{MinBatches: 4, MaxBatches: 16, NKeys: 6 + r.Intn(8), Park: true, Reopen: true, ReopenMid: true,
+				Children: r.Chance(1, 2), Nested: r.Chance(1, 3), ChildOnlyPct: 10, FinalReopen: true, Idle: true}
+			p := eng.GenProgram(r, "C04", cfg, gp)
+			// One case in five reopens immediately after Close, racing the
+			// closed instance's asynchronous file removals.
+			p.RaceReopen = idx%5 == 4
+			return p
+		},
+		minUnits: 20,
+	})
+
+	// ------------------------------------------------------------ C07
+	registerSteered(steeredProfile{
+		prop: "C07", quick: 400, thorough: 8000,
+		rule: "steered store-backed programs over all compaction concerns (disable / allow with LevelMaxSegments 1-4, multiplier 2-9, percentage 0.01-0.99 / force) and idle cycles, with overwrites, deletions and child collections; after every completed persistence round the store's own snapshot must equal the reference content of a non-decreasing prefix, the collection must equal the full reference content; after every round that advanced total_compactions (full) the store must show no deletion marker, no repeated key, nothing at segment level >= 1 and num_segments <= 1, recursively in children; at the end, after quiescence, the directory must hold exactly one data file. distinct_nontrivial = distinct (segments before, round kind append/partial/full/noop, segments after) triples = splice points exercised, plus shapes.",
+		oracles: eng.Oracles{Content: true, Store: true, Dir: true},
+		gen: func(r *eng.Rng, idx int, th bool) *eng.Program {
+			cfg := eng.GenConfig(r, "store", false)
+			cfg.KeepFiles = false
+			gp := eng.GenParams{MinBatches: 5, MaxBatches: 20, NKeys: 6 + r.Intn(8), Park: r.Chance(1, 3),
+				Children: r.Chance(1, 2), Nested: r.Chance(1, 4), Idle: true, Reopen: r.Chance(1, 4)}
+			if idx%6 == 5 {
+				gp.WideKeys = 100 + r.Intn(400)
+				gp.MaxBatches = 10
+			}
+			return eng.GenProgram(r, "C07", cfg, gp)
+		},
+		minUnits: 20,
+	})
+
+	// ------------------------------------------------------------ C08
+	registerSteered(steeredProfile{
+		prop: "C08", quick: 480, thorough: 9600,
+		rule: "steered programs with Set/Del/Merge under an order-sensitive, nil-revealing operator (fold = (existing==nil?\"∅\":existing)+\"|\"+operand; PartialMerge refuses), operands spread over batches, sections, persisted segments, partial/full compactions, a custom lower level, child collections and reopens; after every step Get and iterator values are compared with the model's left fold. distinct_nontrivial = distinct (config class|shape|park) triples at which merged keys were compared.",
+		oracles: eng.Oracles{Content: true, Reopen: true},
+		gen: func(r *eng.Rng, idx int, th bool) *eng.Program {
+			cfg := eng.GenConfig(r, pickBacking(r, "none", "store", "store", "store", "custom"), true)
+			gp := eng.GenParams{MinBatches: 3, MaxBatches: 16, NKeys: 4 + r.Intn(6), Park: true, Reopen: true, Merge: true,
+				Children: cfg.Backing != "custom" && r.Chance(1, 3), Idle: true}
+			return eng.GenProgram(r, "C08", cfg, gp)
+		},
+		minUnits: 20,
+	})
+
+	// ------------------------------------------------------------ C10
+	registerSteered(steeredProfile{
+		prop: "C10", quick: 480, thorough: 9600,
+		rule: "steered programs (Set/Del/Merge, empty key, empty values) over all backings; after every step, for every top-level universe key, Collection.Get, Collection.Get(NoCopyValue), Snapshot.Get, Snapshot.Get(NoCopyValue) and the iterator entry of a fresh snapshot must agree (nil-ness and bytes); values from copying Gets are re-checked after snapshot, collection and store are closed. distinct_nontrivial = distinct (config class|shape|park) triples at which the comparison ran.",
+		oracles: eng.Oracles{Paths: true},
+		gen: func(r *eng.Rng, idx int, th bool) *eng.Program {
+			merge := r.Chance(1, 2)
+			cfg := eng.GenConfig(r, pickBacking(r, "none", "store", "store", "custom"), merge)
+			gp := eng.GenParams{MinBatches: 3, MaxBatches: 16, NKeys: 5 + r.Intn(8), Park: true, Reopen: r.Chance(1, 3), Merge: merge, Idle: true}
+			return eng.GenProgram(r, "C10", cfg, gp)
+		},
+		minUnits: 20,
+	})
+
+	// ------------------------------------------------------------ C11
+	registerSteered(steeredProfile{
+		prop: "C11", quick: 480, thorough: 9600,
+		rule: "steered programs over child names {A,B,C} x nested {X,Y}: creation by empty child batch, child-only batches, writes, DelChildCollection, recreation in a later batch, delete-only batches, nested children, under every placement of merger/persister/compaction/reopen and all compaction concerns; after every step the whole tree seen through ChildCollectionNames/ChildCollectionSnapshot (collection level; store level after each round; after reopen) is compared with the model tree. distinct_nontrivial = distinct (config class|shape|park) triples visited while children existed plus round kinds.",
+		oracles: eng.Oracles{Content: true, Reopen: true, Store: true},
+		gen: func(r *eng.Rng, idx int, th bool) *eng.Program {
+			cfg := eng.GenConfig(r, pickBacking(r, "none", "store", "store", "store"), false)
+			gp := eng.GenParams{MinBatches: 4, MaxBatches: 16, NKeys: 4 + r.Intn(5), Park: r.Chance(1, 2), Reopen: true,
+				Children: true, Nested: r.Chance(1, 2), ChildOnlyPct: 25, DelOnlyPct: 10, Idle: true, FinalReopen: r.Chance(1, 2)}
+			return eng.GenProgram(r, "C11", cfg, gp)
+		},
+		minUnits: 20,
+	})
+
+	// ------------------------------------------------------------ C13
+	registerSteered(steeredProfile{
+		prop: "C13", quick: 480, thorough: 9600,
+		rule: "steered programs (Set/Del/Merge, top-level keys) against a map-backed application lower level that applies each `higher` snapshot by the documented protocol (iterate IncludeDeletions+SkipLowerLevel, resolve Merge with higher.Get); LowerLevelUpdate failure plans (single, bursts, alternating) fail before applying; after every step the lower level must equal the reference content of a non-decreasing prefix and the collection snapshot the full reference content; after draining the lower level must equal the full reference content. distinct_nontrivial = distinct prefix gaps accepted by the lower level plus (config class|shape|park) triples.",
+		oracles: eng.Oracles{Content: true, Lower: true},
+		gen: func(r *eng.Rng, idx int, th bool) *eng.Program {
+			merge := r.Chance(2, 3)
+			cfg := eng.GenConfig(r, "custom", merge)
+			gp := eng.GenParams{MinBatches: 4, MaxBatches: 18, NKeys: 4 + r.Intn(8), Park: r.Chance(1, 2), Merge: merge, Idle: true}
+			p := eng.GenProgram(r, "C13", cfg, gp)
+			p.Steps = append(p.Steps, eng.Step{K: "drain"}, eng.Step{K: "drain"}, eng.Step{K: "lowerfinal"})
+			return p
+		},
+		lowerPlan: func(r *eng.Rng, p *eng.Program) map[int]bool {
+			fp := map[int]bool{}
+			switch r.Intn(4) {
+			case 0:
+			case 1:
+				fp[r.Intn(6)] = true
+			case 2:
+				s := r.Intn(5)
+				for i := 0; i < 2+r.Intn(3); i++ {
+					fp[s+i] = true
+				}
+			case 3:
+				for i := 0; i < 10; i += 2 {
+					fp[i] = true
+				}
+			}
+			return fp
+		},
+		minUnits: 20,
+	})
+
+	// ------------------------------------------------------------ C15
+	registerSteered(steeredProfile{
+		prop: "C15", quick: 400, thorough: 8000,
+		rule: "steered store-backed programs with handles of every kind (collection snapshots, child snapshots, iterators, store snapshots) opened and closed at arbitrary points relative to persistence, partial/full compaction, idle cycles, Collection.Close and Store.Close; every handle is re-read after every step (faults trapped); after everything is closed and the process is quiescent (no moss goroutine runnable, no pending asynchronous unlink) /proc/self/fd and /proc/self/maps must not mention the (unique) store directory and the directory must hold exactly one data file. distinct_nontrivial = distinct (handle kind | events outlived | config class) triples re-read plus release checks by child/no-child.",
+		oracles: eng.Oracles{Frozen: true, Dir: true},
+		gen: func(r *eng.Rng, idx int, th bool) *eng.Program {
+			cfg := eng.GenConfig(r, "store", false)
+			cfg.KeepFiles = false
+			gp := eng.GenParams{MinBatches: 4, MaxBatches: 14, NKeys: 6 + r.Intn(8), Park: r.Chance(1, 3), Handles: true, StoreHandles: true,
+				Children: r.Chance(1, 3), TailClose: r.Chance(1, 2), Reopen: r.Chance(1, 4), Idle: true}
+			return eng.GenProgram(r, "C15", cfg, gp)
+		},
+		units: func(p *eng.Program, res *eng.Result, add func(string)) {
+			for k := range res.Counters {
+				if len(k) > 15 && k[:15] == "handles.reread." {
+					add(k[15:] + "|" + p.Cfg.Class())
+				}
+			}
+			if res.Counters["released.checks"] > 0 {
+				add("released|" + p.Cfg.Class())
+			}
+		},
+		minUnits: 20,
+	})
+
+	// ------------------------------------------------------------ C20
+	registerSteered(steeredProfile{
+		prop: "C20", quick: 480, thorough: 9600,
+		rule: "steered programs incl. child-only and delete-only batches with mossStore and a custom lower level, CachePersisted on/off; Collection.Stats() sampled after every step; whenever CurDirtyOps=CurDirtyBytes=CurDirtySegments=0 with n>0 batches executed and none in flight, the lower level's own content (Store.Snapshot() / the application map) must equal the full reference content; conversely after 3 directed merger+persister iterations the gauges must be zero. distinct_nontrivial = distinct (config class|shape|park) triples sampled with zero gauges and n>0.",
+		oracles: eng.Oracles{Gauges: true},
+		gen: func(r *eng.Rng, idx int, th bool) *eng.Program {
+			b := pickBacking(r, "store", "store", "custom")
+			cfg := eng.GenConfig(r, b, false)
+			gp := eng.GenParams{MinBatches: 4, MaxBatches: 16, NKeys: 4 + r.Intn(8), Park: r.Chance(1, 3), Idle: true,
+				Children: b == "store" && r.Chance(2, 3), ChildOnlyPct: 30, DelOnlyPct: 10}
+			p := eng.GenProgram(r, "C20", cfg, gp)
+			p.Steps = append(p.Steps, eng.Step{K: "drain"}, eng.Step{K: "gaugesfinal"})
+			return p
+		},
+		units: func(p *eng.Program, res *eng.Result, add func(string)) {
+			for k := range res.Nontrivial {
+				add(k)
+			}
+		},
+		minUnits: 10,
+	})
 }
